@@ -1244,7 +1244,7 @@ def h_float_(a):
 @handler("__int__", "__index__")
 def h_int_(a):
     x = payload(a).reshape(-1)[0]
-    return int(SymInt(x))
+    return int(SymInt(el.value_term(x)))
 
 
 @handler("__repr__", "__str__")
